@@ -33,7 +33,7 @@ Theorem C02_content_length_message : forall (C : callees) (k : kind) line info b
   block <> [] -> prefixb CRLF block = false -> cut (CRLF ++ CRLF) (block ++ CRLF) = None ->
   hparse [] block = Some h ->
   (match k with Server => p11 info && negb (hmem K_HOST h) | Client => false end) = false ->
-  c_hdrs C (p11 info) h = HOk -> hget K_TE h = None -> hget K_CE h = None ->
+  c_hdrs C (p11 info) h = HOk -> connect_response C k line = false -> hget K_TE h = None -> hget K_CE h = None ->
   hget K_CL h = Some (dec_of_N (N.of_nat (length body))) ->
   (N.of_nat (length (dec_of_N (N.of_nat (length body)))) <= INT_MAX_STR_DIGITS)%N ->
   (match k with Server => nobody info && nonempty_b body | Client => false end) = false ->
@@ -53,7 +53,7 @@ Theorem C02_chunked_message : forall (C : callees) (k : kind) line info block h 
   block <> [] -> prefixb CRLF block = false -> cut (CRLF ++ CRLF) (block ++ CRLF) = None ->
   hparse [] block = Some h ->
   (match k with Server => negb (hmem K_HOST h) | Client => false end) = false ->
-  c_hdrs C true h = HOk -> hget K_TE h = Some CHUNKED -> hget K_CE h = None ->
+  c_hdrs C true h = HOk -> connect_response C k line = false -> hget K_TE h = Some CHUNKED -> hget K_CE h = None ->
   forallb chunk_ok cs = true -> ext_ok e0 = true ->
   (match k with Server => nobody info && nonempty_b (concat_bytes (map fst cs)) | Client => false end) = false ->
   parse reference C k init (line ++ CRLF ++ block ++ CRLF ++ CRLF ++ (concat_bytes (map wchunk cs) ++ wlast e0 ++ CRLF ++ rest)) =
@@ -70,7 +70,7 @@ Theorem C02_chunked_message_trailers : forall (C : callees) (k : kind) line info
   block <> [] -> prefixb CRLF block = false -> cut (CRLF ++ CRLF) (block ++ CRLF) = None ->
   hparse [] block = Some h ->
   (match k with Server => negb (hmem K_HOST h) | Client => false end) = false ->
-  c_hdrs C true h = HOk -> hget K_TE h = Some CHUNKED -> hget K_CE h = None ->
+  c_hdrs C true h = HOk -> connect_response C k line = false -> hget K_TE h = Some CHUNKED -> hget K_CE h = None ->
   forallb chunk_ok cs = true -> ext_ok e0 = true ->
   tblock <> [] -> prefixb CRLF tblock = false -> cut (CRLF ++ CRLF) (tblock ++ CRLF) = None ->
   hparse [] tblock = Some tr ->
@@ -84,11 +84,35 @@ Theorem C02_chunked_message_trailers : forall (C : callees) (k : kind) line info
 Proof. exact chunked_message_trailers. Qed.
 Print Assumptions C02_chunked_message_trailers.
 
+(* The one configuration in which the client machine must NOT read a body: the message whose framing fields it strips
+   ([c_connect]: a successful response to its CONNECT request, RFC 7231 4.3.6) ends with its header section whatever
+   Transfer-Encoding / Content-Length it carries; it is delivered with an empty body, without those fields, with
+   Content-Length: 0, and the octets after the empty line are parsed as what follows. *)
+Theorem C02_connect_response_message : forall (C : callees) line info block h rest,
+  cut CRLF line = None -> c_start C line = SlOk info ->
+  block <> [] -> prefixb CRLF block = false -> cut (CRLF ++ CRLF) (block ++ CRLF) = None ->
+  hparse [] block = Some h ->
+  c_hdrs C (p11 info) h = HOk -> c_connect C line = true -> hget K_CE h = None ->
+  parse reference C Client init (line ++ CRLF ++ block ++ CRLF ++ CRLF ++ rest) =
+  let '(s2, m2, e) := parse reference C Client init rest in
+  (s2, {| m_line := line; m_hdrs := hset K_CL (dec_of_N 0) (hdel K_TE (hdel K_CL h)); m_body := [] |} :: m2, e).
+Proof. exact connect_response_message. Qed.
+Print Assumptions C02_connect_response_message.
+
+(* non-vacuity, evaluated: "HTTP/1.1 200 OK" + "Content-Length: 3" + "X-A: b" read by a CONNECT client, followed by "abc" *)
+Example C02_connect_example :
+  let TC := {| t_start := [(X "485454502f312e3120323030204f4b", SlOk {| p11 := true; nobody := false |})];
+               t_hdrs := [((true, [(X "436f6e74656e742d4c656e677468", X "33"); (X "582d41", X "62")]), HOk)];
+               t_decode := []; t_2047 := []; t_trailer := []; t_connect := [(X "485454502f312e3120323030204f4b", true)] |} in
+  parse reference (callees_of TC) Client init (X "485454502f312e3120323030204f4b0d0a436f6e74656e742d4c656e6774683a20330d0a782d613a20620d0a0d0a616263") =
+  ({| buf := X "616263"; cur := None |}, [{| m_line := X "485454502f312e3120323030204f4b"; m_hdrs := [(X "582d41", X "62"); (X "436f6e74656e742d4c656e677468", X "30")]; m_body := [] |}], None).
+Proof. vm_compute. reflexivity. Qed.
+
 (* non-vacuity: a concrete response with a 3-octet body satisfies every hypothesis *)
 Definition T : tables := {|
   t_start := [(X "485454502f312e3120323030204f4b", SlOk {| p11 := true; nobody := false |})];
   t_hdrs := [((true, [(X "436f6e74656e742d4c656e677468", X "33"); (X "582d41", X "62")]), HOk)];
-  t_decode := []; t_2047 := []; t_trailer := [] |}.
+  t_decode := []; t_2047 := []; t_trailer := []; t_connect := [] |}.
 (* ... and a chunk list with extensions is well-formed *)
 Example C02_chunks_example : forallb chunk_ok [(X "616263", X "3b783d79"); (X "64", [])] = true /\ ext_ok (X "3b6c617374") = true.
 Proof. vm_compute. auto. Qed.
